@@ -174,10 +174,11 @@ func verifStoreOps(env *verifEnv, rng *rand.Rand) []verifOp {
 		fc.RevisionNumber += 2
 		deps := []proto4.AccountDeposit{{Account: env.acct4[0], Amount: sc(uint32(1 + pick(3)))}, {Account: env.acct4[1], Amount: sc(1)}}
 		total := deps[0].Amount.Add(deps[1].Amount)
-		add("RHP4CreditAccounts", "existing+new", func(s *Store) error {
-			_, err := s.RHP4CreditAccounts(deps, d0, fc, proto4.Usage{AccountFunding: total})
+		ops = append(ops, verifOp{method: "RHP4CreditAccounts", variant: "existing+new", run: func(s *Store, ctl *verifFaultCtl, _ bool) error {
+			balances, err := s.RHP4CreditAccounts(deps, d0, fc, proto4.Usage{AccountFunding: total})
+			ctl.result = fmt.Sprint(balances)
 			return err
-		})
+		}})
 		u4 := proto4.Usage{RPC: types.NewCurrency64(uint64(1 + pick(1000))), Storage: types.NewCurrency64(uint64(pick(1000)))}
 		add("RHP4DebitAccount", "funded", func(s *Store) error { return s.RHP4DebitAccount(env.acct4[0], u4) })
 		add("RHP4DebitAccount", "all", func(s *Store) error { return s.RHP4DebitAccount(env.acct4[0], proto4.Usage{Ingress: sc(2)}) })
@@ -300,13 +301,14 @@ func verifStoreOps(env *verifEnv, rng *rand.Rand) []verifOp {
 			return s.StoreSector(roots0[0], func(storage.SectorLocation) error { ctl.External(false); return nil })
 		})
 		addExt("MigrateSectors", "volume0", func(s *Store, ctl *verifFaultCtl, extFail bool) error {
-			_, failed, err := s.MigrateSectors(context.Background(), env.vols[0], 0, func(from, to storage.SectorLocation) error {
+			migrated, failed, err := s.MigrateSectors(context.Background(), env.vols[0], 0, func(from, to storage.SectorLocation) error {
 				ctl.External(extFail)
 				if extFail {
 					return errVerifExt
 				}
 				return nil
 			})
+			ctl.result = fmt.Sprintf("migrated=%d failed=%d", migrated, failed)
 			if err == nil && failed > 0 && !extFail {
 				return fmt.Errorf("%d sectors failed to migrate", failed)
 			}
@@ -343,6 +345,7 @@ func verifStoreOps(env *verifEnv, rng *rand.Rand) []verifOp {
 // 0 = nil, 1 = error, 2 = panic.
 func verifCall(op verifOp, s *Store, ctl *verifFaultCtl, failAt, kind int, extFail bool) (class int, err error, trace string, fired bool) {
 	ctl.Arm(failAt, kind)
+	ctl.result = ""
 	func() {
 		defer func() {
 			if r := recover(); r != nil {
@@ -369,6 +372,21 @@ func verifExtBetween(ref string) bool {
 			in = false
 		case 'E':
 			return !in
+		}
+	}
+	return false
+}
+
+// verifSwallowedPrepare: does the trace show database calls after a Prepare that was made to
+// fail?  txn.Prepare (persist/sqlite/sql.go) drops the error of a Prepare that took longer than
+// longQueryDuration (10 ms) and hands out a statement without a handle; with injected faults
+// that return at once this only happens when the machine is busy enough to stall the call.
+const verifSigSwallowedPrepare = "failing-prepare-reported-as-success-when-slow"
+
+func verifSwallowedPrepare(trace string) bool {
+	for i := 0; i+1 < len(trace); i++ {
+		if trace[i] == 'p' && trace[i+1] != 'R' {
+			return true
 		}
 	}
 	return false
@@ -507,6 +525,12 @@ func TestVerifC09Store(t *testing.T) {
 			pre := verifSnapshot(t, fs, fpath, env, false)
 			for _, k := range ks {
 				class, err, trace, fired := verifCall(op, fs, fctl, k, verifFaultHard, false)
+				if verifSwallowedPrepare(trace) {
+					em.Monitor(verifSigSwallowedPrepare, fmt.Sprintf("%s k=%d: class %d (%v), trace %s", name, k, class, err, trace))
+					fs.Close()
+					fs, fctl, fpath = open("fault")
+					continue
+				}
 				post := verifSnapshot(t, fs, fpath, env, false)
 				d := pre.diff(post)
 				em.Step(fmt.Sprintf("Call \"%s\" \"%s\" %d%%N %s", op.method, ref, refClass, verifFaultTerm(k, "Hard")),
@@ -553,6 +577,11 @@ func TestVerifC09Store(t *testing.T) {
 					k := rng.Intn(n)
 					ms, mctl, mpath := open("multi")
 					class, _, trace, _ := verifCall(op, ms, mctl, k, verifFaultHard, false)
+					if verifSwallowedPrepare(trace) {
+						em.Monitor(verifSigSwallowedPrepare, fmt.Sprintf("%s k=%d: class %d, trace %s", name, k, class, trace))
+						ms.Close()
+						continue
+					}
 					_, health := verifDump(t, mpath, true)
 					em.Step(fmt.Sprintf("Call \"%s\" \"%s\" %d%%N %s", op.method, ref, refClass, verifFaultTerm(k, "Hard")),
 						fmt.Sprintf("OCall %d%%N \"%s\" %s", class, trace, coqBool(strings.Contains(trace, "C"))))
@@ -583,6 +612,10 @@ func TestVerifC09Store(t *testing.T) {
 					post := verifSnapshot(t, bs, bpath, env, true)
 					bfull := verifSnapshot(t, bs, bpath, env, false)
 					bs.Close()
+					if verifSwallowedPrepare(trace) {
+						em.Monitor(verifSigSwallowedPrepare, fmt.Sprintf("%s k=%d (database is locked): class %d, trace %s", name, k, class, trace))
+						continue
+					}
 					em.Step(fmt.Sprintf("Call \"%s\" \"%s\" %d%%N %s", op.method, ref, refClass, verifFaultTerm(k, "Busy")),
 						fmt.Sprintf("OCall %d%%N \"%s\" %s", class, trace, coqBool(refPre.diff(bfull) != "")))
 					em.Count("fault:busy")
